@@ -1,9 +1,9 @@
-(* C11: a rejected standard adds nothing (repaired _vnacal_new_add_common), a refused property set
-   changes nothing (repaired vnaproperty_vset), and the regression witnesses for the orders the
-   code had before (D17, D54). *)
+(* C11: a rejected standard adds nothing (_vnacal_new_add_common in the order found in the C text), a
+   refused property set changes nothing (vnaproperty_vset in the order found in the C text), and the
+   model variants with the other order (D17, D54), in which the statements fail. *)
 Require Import List ZArith Bool Lia.
 Import ListNotations.
-Require Import LV.Err.ErrBase LV.Gen.ErrnoGen LV.Err.RefutedModel.
+Require Import LV.Err.ErrBase LV.Gen.ErrnoGen LV.Err.OrderModel LV.Err.OrderProofs LV.Err.RefutedModel.
 Open Scope Z_scope.
 
 (* ---------------------------------------------------------------- D17 *)
@@ -43,9 +43,9 @@ Section AddCommonProofs.
   (* repaired order: whatever the parameter table and the s-matrix, a refused standard leaves the
      vnacal_new_t summary (registered parameters, unknown count, measurement count) as it was *)
   Lemma rejected_standard_adds_nothing_l : forall s cells s' v r,
-    add_standard valid unknown s cells = (s', Refuse v r) -> s' = s.
+    add_standard_validate_first valid unknown s cells = (s', Refuse v r) -> s' = s.
   Proof.
-    intros s cells s' v r. unfold add_standard.
+    intros s cells s' v r. unfold add_standard_validate_first.
     destruct (forallb (check_parameter valid s) cells) eqn:C.
     - pose proof (register_after_check_l cells s C) as R.
       destruct (register_cells valid unknown s cells) as [s1 b]. simpl in R. subst b. discriminate.
@@ -54,11 +54,11 @@ Section AddCommonProofs.
 
   (* and a standard is refused by the repaired order exactly when the old order refused it *)
   Lemma add_standard_same_verdict_l : forall s cells,
-    is_pass (snd (add_standard valid unknown s cells)) = is_pass (snd (add_standard_before_fix valid unknown s cells)) /\
-    (is_pass (snd (add_standard valid unknown s cells)) = true ->
-     add_standard valid unknown s cells = add_standard_before_fix valid unknown s cells).
+    is_pass (snd (add_standard_validate_first valid unknown s cells)) = is_pass (snd (add_standard_register_first valid unknown s cells)) /\
+    (is_pass (snd (add_standard_validate_first valid unknown s cells)) = true ->
+     add_standard_validate_first valid unknown s cells = add_standard_register_first valid unknown s cells).
   Proof.
-    intros s cells. unfold add_standard, add_standard_before_fix.
+    intros s cells. unfold add_standard_validate_first, add_standard_register_first.
     destruct (forallb (check_parameter valid s) cells) eqn:C.
     - destruct (register_cells valid unknown s cells) as [s1 b]; split; reflexivity || (intros; reflexivity).
     - assert (R : snd (register_cells valid unknown s cells) = false).
@@ -87,13 +87,33 @@ Section AddCommonProofs.
           congruence. }
       destruct (register_cells valid unknown s cells) as [s1 b]. simpl in R. subst b. split; [reflexivity | discriminate].
   Qed.
+
+  (* the order of the working tree (tied): when the translator finds the validation pass in front of
+     the registration loop, a refused standard leaves the summary as it was - and a standard whose
+     cells all passed the validation is accepted *)
+  Lemma rejected_standard_current_l : forall s cells s' v r,
+    gen_add_common_prevalidates = true ->
+    add_standard_current valid unknown s cells = (s', Refuse v r) -> s' = s.
+  Proof.
+    intros s cells s' v r G. unfold add_standard_current. rewrite G. apply rejected_standard_adds_nothing_l.
+  Qed.
+
+  Lemma validated_standard_accepted_l : forall s cells,
+    gen_add_common_prevalidates = true -> forallb (check_parameter valid s) cells = true ->
+    snd (add_standard_current valid unknown s cells) = Pass.
+  Proof.
+    intros s cells G C. unfold add_standard_current, add_standard_validate_first. rewrite G, C.
+    pose proof (register_after_check_l cells s C) as R.
+    destruct (register_cells valid unknown s cells) as [s1 b]. simpl in R. subst b. reflexivity.
+  Qed.
 End AddCommonProofs.
 
-(* regression witness: the order before the repair.  Handles 0..5 valid, 5 an unknown parameter, 99
-   invalid: the standard (5, 99) is refused but leaves 5 registered and counted *)
-Lemma rejected_standard_adds_nothing_before_fix_D17_refuted_l :
+(* model variant (no validation pass: the order before the repair of D17; the tied model takes it
+   when gen_add_common_prevalidates = false).  Handles 0..5 valid, 5 an unknown parameter, 99 invalid:
+   the standard (5, 99) is refused but leaves 5 registered and counted *)
+Lemma model_variant_register_first_keeps_registrations_l :
   exists valid unknown s cells s',
-    add_standard_before_fix valid unknown s cells = (s', Refuse VM1 (Via USAGE)) /\ s' <> s.
+    add_standard_register_first valid unknown s cells = (s', Refuse VM1 (Via USAGE)) /\ s' <> s.
 Proof.
   exists (fun h => (0 <=? h) && (h <=? 5)), (fun h => h =? 5), (mknew [0] 0 0), [5; 99],
          (mknew [0; 5] 1 0).
@@ -101,39 +121,125 @@ Proof.
 Qed.
 
 Example rejected_standard_example :
-  add_standard (fun h => (0 <=? h) && (h <=? 5)) (fun h => h =? 5) (mknew [0] 0 0) [5; 99]
+  add_standard_validate_first (fun h => (0 <=? h) && (h <=? 5)) (fun h => h =? 5) (mknew [0] 0 0) [5; 99]
     = (mknew [0] 0 0, Refuse VM1 (Via USAGE)) /\
-  add_standard (fun h => (0 <=? h) && (h <=? 5)) (fun h => h =? 5) (mknew [0] 0 0) [5; 3]
+  add_standard_validate_first (fun h => (0 <=? h) && (h <=? 5)) (fun h => h =? 5) (mknew [0] 0 0) [5; 3]
     = (mknew [0; 5; 3] 1 1, Pass).
 Proof. split; vm_compute; reflexivity. Qed.
 
 (* ---------------------------------------------------------------- D54 *)
-(* repaired order: a refused set / set_subtree leaves the tree as it was, is silent, EINVAL *)
-Lemma refused_property_set_unchanged_l : forall t path value t' v r,
-  vset t path value = (t', Refuse v r) -> t' = t /\ v = VM1 /\ r = Direct E_INVAL /\ callbacks r = 0%nat.
+Lemma vset_checks_einval : forall d c, In c (vset_checks d) -> forall x y, c x = Some y -> y = einval_m1.
 Proof.
-  intros t path value t' v r H. destruct value; simpl in H; inversion H; subst. repeat split.
+  intros d c H x y E. simpl in H. destruct H as [H|[H|[H|[]]]]; subst c.
+  - destruct (pd_parse_ok d); [discriminate | inversion E; reflexivity].
+  - destruct (pd_tail_assignable d); [discriminate | inversion E; reflexivity].
+  - destruct (pd_token d); try discriminate; inversion E; reflexivity.
 Qed.
 
-Lemma refused_set_subtree_unchanged_l : forall t path trailing t' v r,
-  vset_subtree t path trailing = (t', Refuse v r) -> t' = t /\ v = VNULL /\ r = Direct E_INVAL.
+Lemma vset_subtree_checks_einval : forall d c, In c (vset_subtree_checks d) -> forall x y, c x = Some y -> y = einval_null.
 Proof.
-  intros t path trailing t' v r H. destruct trailing; simpl in H; inversion H; subst. repeat split.
+  intros d c H x y E. simpl in H. destruct H as [H|[H|[]]]; subst c.
+  - destruct (pd_parse_ok d); [discriminate | inversion E; reflexivity].
+  - destruct (pd_token d); try discriminate; inversion E; reflexivity.
 Qed.
 
-(* the repair changed nothing for accepted calls *)
-Lemma vset_accepted_same_l : forall t path v, vset t path (Some v) = vset_before_fix t path (Some v).
-Proof. reflexivity. Qed.
-
-(* regression witness: root {1: "7"}; set "1.2" without a value was refused and left {1: {2: ~}} *)
-Lemma refused_property_set_before_fix_D54_refuted_l :
-  exists t path t' v r, vset_before_fix t path None = (t', Refuse v r) /\ t' <> t.
+Lemma vset_no_late : forall sk d t t' v r, run (vset_body sk d) t <> (t', MLate v r).
 Proof.
-  exists (PMap [(1, PScalar 7)]), [1; 2], (PMap [(1, PMap [(2, PNull)])]), VM1, (Direct E_INVAL).
+  intros. unfold vset_body. apply assemble_no_late. intros k x. unfold vset_writes.
+  destruct (Nat.eqb (S k) (count_writes sk)); [reflexivity|]. destruct (Nat.eqb k 0); reflexivity.
+Qed.
+
+(* for every order of the statements of vnaproperty_vset that has the three tests in front of the
+   first write, every tree and every descriptor: a refused set leaves the tree as it was, is silent,
+   -1, EINVAL *)
+Lemma refused_property_set_unchanged_l : forall sk t d t' v r,
+  checks_first sk = true ->
+  vset_in_order sk t d = (t', Refuse v r) -> t' = t /\ v = VM1 /\ r = Direct E_INVAL /\ callbacks r = 0%nat.
+Proof.
+  intros sk t d t' v r Hc. unfold vset_in_order. destruct (run (vset_body sk d) t) as [t1 m] eqn:E.
+  destruct m as [|v1 r1|v1 r1]; simpl; intro H; inversion H; subst.
+  - assert (P : (v, r) = einval_m1).
+    { unfold vset_body in E. eapply (assemble_refusal_from ptree (fun y => y = einval_m1)); [|exact E].
+      apply vset_checks_einval. }
+    inversion P; subst. split; [|repeat split].
+    unfold vset_body in E. eapply assemble_refused_unchanged; eassumption.
+  - exfalso. eapply vset_no_late; eassumption.
+Qed.
+
+Lemma refused_set_subtree_unchanged_l : forall sk t d t' v r,
+  checks_first sk = true ->
+  vset_subtree_in_order sk t d = (t', Refuse v r) -> t' = t /\ v = VNULL /\ r = Direct E_INVAL.
+Proof.
+  intros sk t d t' v r Hc. unfold vset_subtree_in_order. destruct (run (vset_subtree_body sk d) t) as [t1 m] eqn:E.
+  destruct m as [|v1 r1|v1 r1]; simpl; intro H; inversion H; subst.
+  - assert (P : (v, r) = einval_null).
+    { unfold vset_subtree_body in E. eapply (assemble_refusal_from ptree (fun y => y = einval_null)); [|exact E].
+      apply vset_subtree_checks_einval. }
+    inversion P; subst. split; [|repeat split].
+    unfold vset_subtree_body in E. eapply assemble_refused_unchanged; eassumption.
+  - exfalso. unfold vset_subtree_body in E. eapply assemble_no_late; [|exact E]. intros k x. reflexivity.
+Qed.
+
+(* as found in the working tree: tests first, one hand-written test per refusing statement *)
+Lemma vset_orders_l :
+  checks_first gen_order_vnaproperty_vset = true /\
+  checks_first gen_order_vnaproperty_vset_subtree = true /\
+  count_checks gen_order_vnaproperty_vset = 3%nat /\
+  count_checks gen_order_vnaproperty_vset_subtree = 2%nat.
+Proof. repeat split; reflexivity. Qed.
+
+(* descending twice along the same path is descending once *)
+Lemma update_entry_ext : forall es k (f g : ptree -> ptree), (forall x, f x = g x) -> update_entry es k f = update_entry es k g.
+Proof.
+  induction es as [|[k' t] r IH]; intros k f g H; simpl; [rewrite H; reflexivity|].
+  destruct (k' =? k); [rewrite H; reflexivity | rewrite (IH k f g H); reflexivity].
+Qed.
+
+Lemma update_entry_twice : forall es k (f g : ptree -> ptree),
+  update_entry (update_entry es k g) k f = update_entry es k (fun x => f (g x)).
+Proof.
+  induction es as [|[k' t] r IH]; intros k f g; simpl.
+  - rewrite Z.eqb_refl. reflexivity.
+  - destruct (k' =? k) eqn:E; simpl; rewrite E; [reflexivity | rewrite IH; reflexivity].
+Qed.
+
+Lemma descend_set_twice : forall path (f g : ptree -> ptree) t,
+  descend_set path f (descend_set path g t) = descend_set path (fun x => f (g x)) t.
+Proof.
+  induction path as [|k r IH]; intros f g t; simpl; [reflexivity|].
+  destruct t as [|v|es]; simpl; try (rewrite Z.eqb_refl; rewrite IH; reflexivity).
+  rewrite update_entry_twice. f_equal. apply update_entry_ext. intro x. apply IH.
+Qed.
+
+Lemma assign_conform : forall path v t, assign path v (conform path t) = assign path v t.
+Proof. intros. unfold assign, conform. rewrite descend_set_twice. reflexivity. Qed.
+
+(* an accepted set, in the order of the working tree: the tree with the value assigned at the path *)
+Lemma vset_accepted_l : forall t path v,
+  vset t (mkpdesc true path true (TkAssign v)) = (assign path (PScalar v) t, Pass) /\
+  vset t (mkpdesc true path true TkHash) = (assign path PNull t, Pass) /\
+  vset_subtree t (mkpdesc true path true TkEof) = (conform path t, Pass).
+Proof.
+  intros. repeat split; unfold vset, vset_subtree, vset_in_order, vset_subtree_in_order, vset_body, vset_subtree_body;
+    simpl; rewrite ?assign_conform; reflexivity.
+Qed.
+
+(* model variant (the order before the repair of D54: descend, then the tests): root {1: "7"}, set
+   "1.2" without a value is refused and leaves {1: {2: ~}} - the premise checks_first is needed *)
+Lemma model_variant_descend_first_changes_tree_l :
+  checks_first order_variant_descend_first = false /\
+  exists t d t' v r, vset_in_order order_variant_descend_first t d = (t', Refuse v r) /\ t' <> t.
+Proof.
+  split; [reflexivity|].
+  exists (PMap [(1, PScalar 7)]), (mkpdesc true [1; 2] true TkEof), (PMap [(1, PMap [(2, PNull)])]), VM1, (Direct E_INVAL).
   split; [vm_compute; reflexivity | discriminate].
 Qed.
 
 Example property_set_example :
-  vset (PMap [(1, PScalar 7)]) [1; 2] None = (PMap [(1, PScalar 7)], Refuse VM1 (Direct E_INVAL)) /\
-  vset (PMap [(1, PScalar 7)]) [1; 2] (Some (PScalar 9)) = (PMap [(1, PMap [(2, PScalar 9)])], Pass).
-Proof. split; vm_compute; reflexivity. Qed.
+  vset (PMap [(1, PScalar 7)]) (mkpdesc true [1; 2] true TkEof) = (PMap [(1, PScalar 7)], Refuse VM1 (Direct E_INVAL)) /\
+  vset (PMap [(1, PScalar 7)]) (mkpdesc true [1] false (TkAssign 9)) = (PMap [(1, PScalar 7)], Refuse VM1 (Direct E_INVAL)) /\
+  vset (PMap [(1, PScalar 7)]) (mkpdesc false [] true TkOther) = (PMap [(1, PScalar 7)], Refuse VM1 (Direct E_INVAL)) /\
+  vset (PMap [(1, PScalar 7)]) (mkpdesc true [1; 2] true (TkAssign 9)) = (PMap [(1, PMap [(2, PScalar 9)])], Pass) /\
+  vset_subtree (PMap [(1, PScalar 7)]) (mkpdesc true [1; 2] true (TkAssign 9)) = (PMap [(1, PScalar 7)], Refuse VNULL (Direct E_INVAL)) /\
+  vset_subtree (PMap [(1, PScalar 7)]) (mkpdesc true [1; 2] true TkEof) = (PMap [(1, PMap [(2, PNull)])], Pass).
+Proof. repeat split; vm_compute; reflexivity. Qed.
